@@ -200,7 +200,7 @@ def replay_in_fresh_process(path):
 
 # ---------------------------------------------------------------------------
 
-def run_check(prop, tier, seed, budget_s, workers=None, max_runs=None):
+def run_check(prop, tier, seed, budget_s, workers=None, max_runs=None, write_evidence=True):
     t0 = time.time()
     fam = family_of(prop)
     known = load_known()
@@ -247,7 +247,8 @@ def run_check(prop, tier, seed, budget_s, workers=None, max_runs=None):
     search_wall = time.time() - t0
 
     # ---- judge, shrink, write replay files ---------------------------------
-    os.makedirs(os.path.join(VERIF, 'replays'), exist_ok=True)
+    rdir = 'replays' if write_evidence else os.path.join('replays', 'selftest')
+    os.makedirs(os.path.join(VERIF, rdir), exist_ok=True)
     classes = {}
     for item in sorted(total['violations'], key=lambda it: it['index']):
         for vj in item['violations']:
@@ -272,7 +273,7 @@ def run_check(prop, tier, seed, budget_s, workers=None, max_runs=None):
         sc_min['property'] = prop
         sc_min['expect'] = {'oracle': v_min['oracle'], 'event': v_min['event'], 'detail': v_min['detail']}
         name = '%s-%d-%d-%s.json' % (prop, seed, item['index'], v_min['oracle'].split('.')[-1])
-        path = os.path.join(VERIF, 'replays', name)
+        path = os.path.join(VERIF, rdir, name)
         with open(path, 'w') as f:
             json.dump(sc_min, f, indent=1, sort_keys=True)
         ok, msg = replay_in_fresh_process(path)
@@ -322,9 +323,10 @@ def run_check(prop, tier, seed, budget_s, workers=None, max_runs=None):
         'wall_s': round(wall, 2),
         'violations': new_violations,
     }
-    os.makedirs(os.path.join(VERIF, 'evidence'), exist_ok=True)
-    with open(os.path.join(VERIF, 'evidence', '%s.json' % prop), 'w') as f:
-        json.dump(ev, f, indent=1, sort_keys=True, default=str)
+    if write_evidence:
+        os.makedirs(os.path.join(VERIF, 'evidence'), exist_ok=True)
+        with open(os.path.join(VERIF, 'evidence', '%s.json' % prop), 'w') as f:
+            json.dump(ev, f, indent=1, sort_keys=True, default=str)
 
     print('VERIF_SEED=%d property=%s tier=%s scenarios=%d runs=%d distinct_nontrivial=%d sim_s=%.0f wall=%.1fs runs/h=%d'
           % (seed, prop, tier, total['n'], total['runs'], len(total['sigs']), total['sim_time'], wall,
@@ -367,6 +369,7 @@ def main(argv):
     ap.add_argument('--replay')
     ap.add_argument('--quiet', action='store_true')
     ap.add_argument('--trace', action='store_true')
+    ap.add_argument('--no-evidence', action='store_true')
     a = ap.parse_args(argv)
     if a.replay:
         sc, vs, out = replay_file(a.replay)
@@ -391,4 +394,4 @@ def main(argv):
         return 0
     seed = a.seed if a.seed is not None else int(os.environ.get('VERIF_SEED', '20260925'))
     budget = a.budget if a.budget is not None else (45.0 if a.tier == 'quick' else 600.0)
-    return run_check(a.prop, a.tier, seed, budget, a.workers, a.max_runs)
+    return run_check(a.prop, a.tier, seed, budget, a.workers, a.max_runs, write_evidence=not a.no_evidence)
